@@ -9,6 +9,7 @@ from .lang import Roles
 from .origin import Origins, show, walk
 from .util import Vars, reaches_without
 
+TECHNIQUE = 'static analysis: panic-site enumeration below the entry points with mechanical discharge classes and audited tables; constant exit statuses; error-propagation (Try::branch) rule; extension-before-open dominance'
 LEVEL = "other"
 EXPLANATION = (
     "Call-graph and all-paths analysis below the `run` and `check` entry points (plus main/sub_main and the option "
